@@ -77,8 +77,14 @@ func one(v Vec, kind string, cli bool) string {
 	dir := hx.Scratch("rm")
 	defer os.RemoveAll(dir)
 	repo := hx.InitRepo(dir)
-	for _, m := range v.Remotes {
+	for k, m := range v.Remotes {
 		hx.Must(repo.AddRemote(m, filepath.Join(dir, "nowhere-"+m)))
+		if k == 0 {
+			// a remote with a mirror (`git remote set-url --add`): two URLs, one remote
+			if out, err := exec.Command("git", "-C", dir, "config", "--add", "remote."+m+".url", filepath.Join(dir, "mirror-of-"+m)).CombinedOutput(); err != nil {
+				hx.Die("git config: %v %s", err, out)
+			}
+		}
 	}
 	ns := map[string]string{"bug": "bugs", "identity": "identities"}[kind]
 	author, err := identity.NewIdentity(repo, "author", "a@example.org")
